@@ -73,7 +73,7 @@ def _children(term):
                         yield y
 
 
-_HEADS = {"mutated", "param", "upvar", "local", "const", "fnitem", "call", "bin", "un", "agg", "proj", "cast", "discr",
+_HEADS = {"never", "mutated", "param", "upvar", "local", "const", "fnitem", "call", "bin", "un", "agg", "proj", "cast", "discr",
           "phi", "cparam", "yielded", "env"}
 
 
@@ -117,12 +117,19 @@ def mk_proj(base, elems):
         if e.startswith("as:"):
             if kind.startswith("adt:") and kind.endswith("::" + e[3:]):
                 return mk_proj(base, elems[1:])
+            if kind.startswith("adt:"):
+                # payload of a variant the value is known NOT to be (`None.as:Some.0`): an impossible alternative
+                return ("never",)
         elif e in fields:
             i = fields.index(e)
             if i < len(ops):
                 return mk_proj(ops[i], elems[1:])
+    if base[0] == "never":
+        return base
     if base[0] == "phi":
-        alts = tuple(sorted(set(mk_proj(a, elems) for a in base[1]), key=repr))
+        alts = tuple(sorted(set(x for x in (mk_proj(a, elems) for a in base[1]) if x != ("never",)), key=repr))
+        if not alts:
+            return ("never",)
         if len(alts) == 1:
             return alts[0]
         return ("phi", alts, None)
@@ -186,6 +193,8 @@ def render(t):
         return "_%d" % t[1]
     if h == "const":
         return t[1]
+    if h == "never":
+        return "<never>"
     if h == "fnitem":
         return "fn:" + short(t[1])
     if h == "call":
@@ -873,6 +882,37 @@ class Body:
                             out.add(conj | c2)
         return out
 
+    def _lift_is_phi(self, atom, _stack):
+        """a variant test on a local assigned in several arms (`let o = match .. { A => None, B => x.field }; match o {..}`,
+        the inlined form of `opt.and_then(..)` / `.map(..)` chains): replaced by the arms' own guards - an arm that assigns
+        a literal variant decides the test statically, any other arm contributes `its guard && (its value is V)`"""
+        if atom[0] != "is" or atom[1][0] != "phi" or len(atom[1]) < 3 or atom[1][2] is None:
+            return None
+        l = atom[1][2]
+        ds = self.defs.get(l, [])
+        if len(ds) < 2:
+            return None
+        out = set()
+        for d in ds:
+            bi, si, kind, s = d
+            if kind not in ("stmt", "call") or bi in _stack:
+                return None
+            t = self._def_term(d, 0)
+            if t[0] == "agg" and t[1].startswith("adt:"):
+                if t[1].rsplit("::", 1)[-1] in atom[2]:
+                    for conj in self.guard(bi, _stack):
+                        out.add(conj)
+                continue
+            inner = ("is", t, atom[2], atom[3], atom[4])
+            sub = self._lift_is_phi(inner, _stack) if t[0] == "phi" else None
+            for conj in self.guard(bi, _stack):
+                if sub is None:
+                    out.add(conj | {inner})
+                else:
+                    for c2 in sub:
+                        out.add(conj | c2)
+        return out
+
     def guard(self, b, _stack=None):
         """DNF: frozenset of frozensets of atoms under which block b executes (loop back-edges cut)"""
         if b in self._guard_cache:
@@ -896,6 +936,8 @@ class Body:
                     # self-dependence of a loop header
                     continue
                 lifted = self._lift_bool_phi(atom, _stack)
+                if lifted is None:
+                    lifted = self._lift_is_phi(atom, _stack)
                 for conj in self.guard(a, _stack):
                     if lifted is None:
                         disj.add(conj | {atom})
